@@ -191,7 +191,8 @@ pub fn gen_name(t: &mut Tape, odd: bool) -> String {
     if !odd || !t.chance(1, 5) {
         return t.pick(NAME_POOL).to_string();
     }
-    let n = t.range(1, 12);
+    // odd names are 1-12 characters; one in ten of them is long (65-100), beyond any fixed-width table or buffer
+    let n = if t.chance(1, 10) { t.range(65, 100) } else { t.range(1, 12) };
     let first: Vec<char> = NAME_FIRST.chars().collect();
     let rest: Vec<char> = NAME_REST.chars().collect();
     let mut s = String::new();
